@@ -16,6 +16,12 @@ variable {σ : Type} [DecidableEq σ] (ipv : σ → Option Nat) (skip : σ → B
 /-- the volatile-header list and the private prefix the source uses now are the ones the judge uses -/
 theorem gen_cfg_pinned : genCfg = specCfg := by decide
 
+/-- the notification logic the model transcribes by hand (`see_search`, `see_advertisement`, `unsee_advertisement`,
+    `same_headers_differ`, `location_changed`, `combined_headers`, the four `_on_*` with their two independent callback
+    branches) still reads as it did when it was transcribed: e.g. `is_new_device and is_new_service`, a reversed overlay or
+    `ssdp:update` treated like alive now also break this pin, not only the judged runs -/
+theorem gen_sources_pinned : Gen.C03Tracker.sources = transcribedSources := rfl
+
 /-- **c04_step** — every step of the model, from every state satisfying the tracker invariant, satisfies the
     judge's step relation on the model's own observations: at most one notification per message (both callback
     flavours identical), for the sender and the message's type; `search_changed` / `advertisement_alive` exactly
